@@ -116,7 +116,8 @@ def gen_synthetic(tier, rng):
     for ver, kind in kinds:
         for k in range(1, 5):
             for sub in itertools.combinations(range(4), k):
-                base = "del ver=%s kind=%s nv=4 attrs=nuc" % (ver, kind)
+                # Oblivion streams keep the NUMBER of texture-coordinate sets: half of the small scope has two
+                base = "del ver=%s kind=%s nv=4 attrs=%s" % (ver, kind, "nucU" if ver == "ob" and k % 2 == 0 else "nuc")
                 base += " strips=0.1.2.3;1.2.3.0" if kind == "strips" else " tris=" + fmt_tris(small)
                 steps = [list(sub)] + ([[0]] if k < 4 else [])
                 for skin in ([False, True] if kind == "auto" and ver not in ("fo4", "fo76") else [False]):
@@ -130,7 +131,7 @@ def gen_synthetic(tier, rng):
         ver, kind = rng.choice(kinds + [("sk", "auto"), ("sse", "auto"), ("fo4", "auto"), ("ob", "auto")])
         nv = rng.choice([1, 2, 3, 5, 6, 8, 12, 20]) if quick else rng.choice([1, 2, 3, 4, 5, 6, 8, 12, 20, 40, 90])
         nt = rng.randint(0, 2 * nv)
-        c = "del ver=%s kind=%s nv=%d attrs=%s" % (ver, kind, nv, rng.choice(["", "n", "u", "nu", "nuc", "c", "uc"]))
+        c = "del ver=%s kind=%s nv=%d attrs=%s" % (ver, kind, nv, rng.choice(["", "n", "u", "nu", "nuc", "c", "uc", "nuU", "uU", "nucU"]))
         if kind == "strips":
             ns = rng.randint(0, 3)
             strips = [".".join(str(rng.randrange(nv)) for _ in range(rng.randint(0, 7))) or "-" for _ in range(ns)]
